@@ -12,14 +12,23 @@ MANIFEST = {
             'by a theorem.',
     'note': 'One event = one committed transaction (in-process atomicity); multi-process sub-transaction races are '
             'not exhibited. Data flow/expressions/policies/sub-workflows are outside Mistral.Engine (covered by the '
-            'monitors only). Sub-workflow pause propagation: monitors only.',
+            'monitors only). Sub-workflow trees: Mistral.Tree models pause_workflow / resume_workflow / _on_action_update '
+            'calling each other inside one transaction (sub-workflows first, then the workflow, then the parent task and '
+            'the parent workflow: synchronously for a plain parent task, through a scheduler job for a with-items one), the '
+            'backlog, Task.complete while PAUSED, Workflow.resume / RunExistingTask; tied by the tree stream (pause / resume '
+            '/ stop commands on any node of generated trees; rows, backlog and pending deliveries equal after EVERY event). '
+            'Mistral.Props.C10Tree: function-level theorems (dispatch_into_paused_creates_no_task, '
+            'dispatch_list_into_paused_creates_no_task, complete_in_paused_creates_no_task, pause_request_is_good) and '
+            'the propagation on concrete trees (pause root / pause leaf / resume root / resume leaf / pause then cancel); '
+            'the propagation over ALL trees (every RUNNING descendant PAUSED, resume brings them back) is decided by the '
+            'tree stream and its monitors, not by a theorem.',
 }
 RULE = ('stream core: data-free single-activation programs x oracles x schedules x pause/resume/stop at random points, '
         'model vs real after every event; stream engine (mode pause): generated programs with data flow, pause and '
         'resume at random points, paired with the unpaused run; non-trivial = a join or an operator command in the '
         'trace; distinct = distinct (definition, oracle, schedule seed, commands)')
 TRUSTED = ['harness seams (post-commit thread, RPC client, executor, scheduler dispatcher) replaced by recorders']
-LEAN_MODULES = ['Mistral.Props.C10']
+LEAN_MODULES = ['Mistral.Props.C10', 'Mistral.Props.C10Tree']
 
 
 def correspond(ctx):
@@ -28,12 +37,22 @@ def correspond(ctx):
                      + [{'n_programs': ctx.n(10, 300), 'mode': 'mixed'}] * 7)
     par.run_parallel(ctx, 'harness.engine_stream', 'run_chunk',
                      [{'n_programs': ctx.n(10, 300), 'props': ['C10'], 'mode': 'pause'}] * 14)
+    # the execution TREE: pause / resume (and stop) commands on any node of generated sub-workflow trees,
+    # Mistral.Tree vs the real engine after every event + the monitors of the first sentence of C10
+    par.run_parallel(ctx, 'harness.tree_stream', 'run_chunk',
+                     [{'n_cases': ctx.n(8, 120), 'props': ['C10'], 'gen_kw': {'p_pause': 0.6}}] * 14)
 
 
 def search(ctx):
+    """failing-input search: first the disagreeing cases themselves, run to the end on the real engine against their
+    unpaused reference run; then a wider population with more failing actions (errors handled while PAUSED)"""
+    from harness import engine_stream
     from vlib import par
+    engine_stream.search_from_core(ctx, ['C10'], 'pause')
+    if ctx.violations:
+        return
     par.run_parallel(ctx, 'harness.engine_stream', 'run_chunk',
-                     [{'n_programs': 30, 'props': ['C10'], 'mode': 'pause'}] * 14)
+                     [{'n_programs': 30, 'props': ['C10'], 'mode': 'pause', 'p_err': 0.3}] * 14)
 
 
 def replay(ctx, rep):
